@@ -143,6 +143,10 @@ def main():
         dst = os.path.join(ROOT, "coq", "theories", "FtabRef.v")
         if os.path.exists(dst) and "--force" not in sys.argv[1:]:
             die("%s exists; the reference is frozen (use --force only when re-pinning on purpose)" % dst)
+        # NOTE: the FtabRef.v in the tree is NOT a plain dump any more: it is the pinned source plus three
+        # arities corrected by hand against the Ftab (MMULT 2, LENB 1, CONVERT 3 — audit E1-E3) and says so
+        # in its header.  Re-pinning with --ref --force from a tree that has the corrected utils.rs gives
+        # the same tables; restore the header comment afterwards.
         hdr = ("(* FtabRef — FROZEN reference copy of FTAB / FTAB_ARGC (src/utils.rs) taken from the pinned\n"
                "   tree.  Never regenerated by the check.  FtabMatch.tables_match_reference compares the table\n"
                "   the code has NOW (CalamineGen.Tables, regenerated on every run) with this copy, so it is a\n"
